@@ -151,7 +151,17 @@ def run_other(c):
                 ns["begin"] = state(first=True)(mkfn("begin"))
             cls = type("C%d" % next(_uid), (StateMachine,), ns)
             if k == "call":
-                cls().orig()
+                # however the state is called directly - with the arguments a state function takes, by keyword ...
+                inst = cls()
+                how = next(_uid) % 4
+                if how == 0:
+                    inst.orig()
+                elif how == 1:
+                    inst.orig(0.0, 0.0, True)
+                elif how == 2:
+                    inst.orig(tm=1.5)
+                else:
+                    inst.orig(initial_call=False, state_tm=0.25)
             else:
                 cls.orig(None)
         return {"error": None}
